@@ -44,6 +44,19 @@ static WRITABLE_RECORDS: Lazy<DashSet<Key>> = Lazy::new(DashSet::new);
 
 static WRITABLE_TOKEN_RECORDS: Lazy<DashMap<Key, u64>> = Lazy::new(DashMap::new);
 
+/// Serialises the operations that change what is registered for a descriptor. Each of them
+/// looks at the records, changes the OS registration and then updates the records, and they
+/// are made by event-loop threads and by plain threads (hooked calls outside coroutines) alike:
+/// interleaved, an ADD meets a registration the records did not show yet (EEXIST), or the
+/// records are written from a stale look.
+static REGISTRATION: Lazy<std::sync::Mutex<()>> = Lazy::new(Default::default);
+
+fn registration_lock() -> std::sync::MutexGuard<'static, ()> {
+    REGISTRATION
+        .lock()
+        .unwrap_or_else(std::sync::PoisonError::into_inner)
+}
+
 /// Events abstraction.
 pub(crate) trait EventIterator<E: Event> {
     /// get the iterator.
@@ -88,6 +101,7 @@ pub(crate) trait Selector<I: Interest, E: Event, S: EventIterator<E>> {
     /// # Errors
     /// if add failed.
     fn add_read_event(&self, fd: c_int, token: u64) -> std::io::Result<()> {
+        let _guard = registration_lock();
         let key = (self.id(), fd);
         if READABLE_RECORDS.contains(&key) {
             if READABLE_TOKEN_RECORDS.get(&key).map(|r| *r.value()) != Some(token) {
@@ -121,6 +135,7 @@ pub(crate) trait Selector<I: Interest, E: Event, S: EventIterator<E>> {
     /// # Errors
     /// if add failed.
     fn add_write_event(&self, fd: c_int, token: u64) -> std::io::Result<()> {
+        let _guard = registration_lock();
         let key = (self.id(), fd);
         if WRITABLE_RECORDS.contains(&key) {
             if WRITABLE_TOKEN_RECORDS.get(&key).map(|r| *r.value()) != Some(token) {
@@ -153,6 +168,12 @@ pub(crate) trait Selector<I: Interest, E: Event, S: EventIterator<E>> {
     /// # Errors
     /// if delete failed.
     fn del_event(&self, fd: c_int) -> std::io::Result<()> {
+        let _guard = registration_lock();
+        self.del_event_locked(fd)
+    }
+
+    /// For inner use: the caller holds the registration lock.
+    fn del_event_locked(&self, fd: c_int) -> std::io::Result<()> {
         let key = (self.id(), fd);
         if READABLE_RECORDS.contains(&key) || WRITABLE_RECORDS.contains(&key) {
             let token = READABLE_TOKEN_RECORDS
@@ -172,6 +193,7 @@ pub(crate) trait Selector<I: Interest, E: Event, S: EventIterator<E>> {
     /// # Panics
     /// if clean failed.
     fn del_read_event(&self, fd: c_int) -> std::io::Result<()> {
+        let _guard = registration_lock();
         let key = (self.id(), fd);
         if READABLE_RECORDS.contains(&key) {
             if WRITABLE_RECORDS.contains(&key) {
@@ -186,7 +208,7 @@ pub(crate) trait Selector<I: Interest, E: Event, S: EventIterator<E>> {
                 );
                 _ = READABLE_TOKEN_RECORDS.remove(&key);
             } else {
-                self.del_event(fd)?;
+                self.del_event_locked(fd)?;
             }
         }
         Ok(())
@@ -198,6 +220,7 @@ pub(crate) trait Selector<I: Interest, E: Event, S: EventIterator<E>> {
     /// # Panics
     /// if clean failed.
     fn del_write_event(&self, fd: c_int) -> std::io::Result<()> {
+        let _guard = registration_lock();
         let key = (self.id(), fd);
         if WRITABLE_RECORDS.contains(&key) {
             if READABLE_RECORDS.contains(&key) {
@@ -212,7 +235,7 @@ pub(crate) trait Selector<I: Interest, E: Event, S: EventIterator<E>> {
                 );
                 _ = WRITABLE_TOKEN_RECORDS.remove(&key);
             } else {
-                self.del_event(fd)?;
+                self.del_event_locked(fd)?;
             }
         }
         Ok(())
